@@ -317,6 +317,134 @@ def exec_zero_rtt(p):
     return problems, oc, orc, early
 
 
+def gen_lowered(r):
+    """0-RTT where the server answers with SMALLER transport parameters than the remembered ones
+    (forbidden by RFC 9000 7.4.1; `TP.monotone` of AQ.Props.C06 is exactly the absence of this)"""
+    l1 = {"max_data": r.choice([2000, 10000]), "max_stream_data": r.choice([1000, 5000])}
+    which = r.choice(["max_data", "max_stream_data", "streams", "all"])
+    l2, sc1, sc2 = dict(l1), [4, 4], [4, 4]
+    if which in ("max_data", "all"):
+        l2["max_data"] = r.choice([0, 10, 100])
+    if which in ("max_stream_data", "all"):
+        l2["max_stream_data"] = r.choice([0, 5, 50])
+    if which in ("streams", "all"):
+        sc2 = [1, 1]
+    early = [("send", sid, r.choice([300, 700]), False) for sid in r.sample([0, 4, 2], r.randrange(1, 4))]
+    later = [("send", r.choice([0, 4, 2, 8]), r.choice([100, 400]), False) for _ in range(r.randrange(1, 4))]
+    return {"lowered": True, "seed": r.randrange(1 << 30), "l1": l1, "l2": l2, "sc1": sc1, "sc2": sc2,
+            "early": early, "later": later, "which": which}
+
+
+def exec_lowered(p):
+    """deterministic given `p`: first connection obtains a ticket under L1; on the second the client writes
+    0-RTT data under the remembered L1; the 0-RTT datagrams are lost by the network; the server (limits L2
+    below L1) completes the handshake.  Wire oracle: after the handshake parameters arrived, a 1-RTT packet
+    must not carry NEW stream data (beyond what was sent in 0-RTT) above the server's per-stream limit,
+    above its connection limit, or on a stream beyond its stream count (unless MAX_* frames raised them)."""
+    from harness import sim as simmod
+    from harness.impl_flow import FlowObserver, PacketLog, fast_certs, set_stream_count_limits
+    fast_certs()
+    l1, l2, sc1, sc2, seed = p["l1"], p["l2"], p["sc1"], p["sc2"], p["seed"]
+    tickets, saved = {}, []
+    s1 = simmod.Sim(seed, client_options={}, server_options=dict(l1))
+    set_stream_count_limits(s1.server.conn, *sc1)
+    s1.client.conn._session_ticket_handler = saved.append
+    s1.server.conn._session_ticket_handler = lambda t: tickets.__setitem__(t.ticket, t)
+    try:
+        ok = s1.handshake() and s1.fair_phase(max_steps=60, done=lambda: bool(saved))
+    finally:
+        s1.close_taps()
+    if not ok or not saved:
+        return None
+    log = PacketLog()
+    s = simmod.Sim(seed + 1, client_options={"session_ticket": saved[-1]}, server_options=dict(l2), monitors=[log])
+    set_stream_count_limits(s.server.conn, *sc2)
+    s.server.conn._session_ticket_fetcher = lambda label: tickets.pop(label, None)
+    c = s.client.conn
+    oc = FlowObserver(c, name="client")
+    problems = []
+    try:
+        s.api(s.client, "connect", simmod.SERVER_ADDR, now=s.now)
+        s.transmit(s.client)                      # the Initial packet
+        keep = len(s.pending)
+        for a in p["early"]:
+            s.api(s.client, "send_stream_data", a[1], bytes(a[2]), a[3])
+        s.transmit(s.client)
+        del s.pending[keep:]                      # every 0-RTT datagram is lost
+        s.fair_phase(max_steps=200, done=lambda: c._handshake_complete or c._close_event is not None)
+        n_before = len(log.built.get("client", []))
+        hi0 = {}
+        for ep, pn, fr in log.built.get("client", []):
+            for f in fr:
+                if f["name"] == "STREAM":
+                    hi0[f["stream_id"]] = max(hi0.get(f["stream_id"], 0), f["offset"] + len(f.get("data", b"")))
+        for a in p["later"]:
+            s.api(s.client, "send_stream_data", a[1], bytes(a[2]), a[3])
+            s.transmit(s.client)
+        s.fair_phase(max_steps=200, done=lambda: not s.pending)
+        # the limits the server put on the wire: its handshake parameters and MAX_* frames
+        msd, md, ms = {}, l2["max_data"], {False: sc2[0], True: sc2[1]}
+        for ep, pn, fr in log.built.get("server", []):
+            for f in fr:
+                if f["name"] == "MAX_STREAM_DATA":
+                    msd[f["stream_id"]] = max(msd.get(f["stream_id"], 0), f["value"])
+                elif f["name"] == "MAX_DATA":
+                    md = max(md, f["value"])
+                elif f["name"] in ("MAX_STREAMS_BIDI", "MAX_STREAMS_UNI"):
+                    ms[f["name"].endswith("UNI")] = max(ms[f["name"].endswith("UNI")], f["value"])
+        hi = dict(hi0)
+        for ep, pn, fr in log.built.get("client", [])[n_before:]:
+            for f in fr:
+                if f["name"] != "STREAM" or ep != "ONE_RTT":
+                    continue
+                sid, end = f["stream_id"], f["offset"] + len(f.get("data", b""))
+                if end <= hi.get(sid, 0):
+                    continue                      # retransmission of 0-RTT data
+                hi[sid] = end
+                lim = max(l2["max_stream_data"], msd.get(sid, 0))
+                if end > lim:
+                    problems.append(f"1-RTT packet {pn}: NEW data on stream {sid} up to offset {end} beyond the per-stream limit {lim} "
+                                    f"of the server's handshake parameters (remembered for 0-RTT: {l1['max_stream_data']})")
+                elif sum(hi.values()) > md and end > hi0.get(sid, 0):
+                    problems.append(f"1-RTT packet {pn}: NEW data, sum of highest offsets {sum(hi.values())} beyond the connection limit {md} "
+                                    f"of the server's handshake parameters (remembered: {l1['max_data']})")
+                elif sid not in hi0 and sid // 4 >= ms[bool(sid & 2)]:
+                    problems.append(f"1-RTT packet {pn}: stream {sid} opened beyond the stream count {ms[bool(sid & 2)]} of the handshake parameters")
+    finally:
+        s.close_taps()
+    ce = c._close_event
+    state = {"closed": None if ce is None else int(ce.error_code), "remote_max_data": c._remote_max_data,
+             "used": c._remote_max_data_used, "remote_max_streams_bidi": c._remote_max_streams_bidi}
+    return [(q, {"oracle": "wire-send-0rtt", "cause": "server-lowered-params"}) for q in problems[:1]], oc, state
+
+
+def lowered_params_exhibit(ctx, r, n, cases, impl_outs):
+    """finding candidate C06-0rtt-lowered-parameters (see known_findings.jsonl): not a hypothesis-free
+    violation of C06 — the server breaks RFC 9000 7.4.1 — but the real code neither refuses the reduced
+    parameters nor applies them to the streams opened in 0-RTT"""
+    lowered_state = 0
+    directed = [{"lowered": True, "seed": 77, "l1": {"max_data": 10000, "max_stream_data": 5000}, "l2": l2, "sc1": [4, 4],
+                 "sc2": [4, 4], "early": [("send", 0, 3000, False), ("send", 4, 2000, False)],
+                 "later": [("send", 0, 1000, False)], "which": "directed"}
+                for l2 in ({"max_data": 10000, "max_stream_data": 50}, {"max_data": 100, "max_stream_data": 5000})]
+    for i in range(n):
+        p = directed[i] if i < len(directed) else gen_lowered(r)
+        res = exec_lowered(p)
+        if res is None:
+            ctx.broken.append({"kind": "harness", "error": "no session ticket obtained", "seed": p["seed"]})
+            continue
+        problems, oc, state = res
+        for what, sig in problems:
+            ctx.witness(what, p, sig)
+        cases.append(oc.lines)
+        impl_outs.append(oc.outs)
+        if state["closed"] is None and state["remote_max_data"] < state["used"]:
+            lowered_state += 1
+        ctx.count(("0rtt-lowered", p["seed"]), True)
+    ctx.notes["lowered_params_runs"] = n
+    ctx.notes["lowered_params_connection_limit_below_used"] = lowered_state
+
+
 def zero_rtt(ctx, r, n, cases, impl_outs):
     for i in range(n):
         p = gen_zero_rtt(r)
@@ -354,7 +482,10 @@ def main(tier):
         "remaining_flight_space <= remaining_buffer_space (so start_frame cannot raise after the overhead check of _write_stream_frame)",
         "limits received in MAX_* frames are monotone by construction (the handlers take the max); transport parameters replacing "
         "the values remembered for 0-RTT are NOT compared by the code: conn_limit/stream_limit assume the peer does not reduce them "
-        "(RFC 9000 section 7.4.1 obliges the server); see AQ.Props.C06.tp_reduction_counterexample",
+        "(RFC 9000 section 7.4.1 obliges the server); see AQ.Props.C06.tp_reduction_counterexample. The assumption cannot be "
+        "derived: section 5 of this check shows the real client lowering its limits (open finding C06-0rtt-lowered-parameters); "
+        "it is not needed without 0-RTT resumption (AQ.Props.C06.invariant_single_handshake) and MAX_* frames never lower a "
+        "limit (remote_limits_monotone)",
         "delivery reports name frames emitted earlier for that stream and not yet reported (GWFRun; guaranteed by recovery, C08; "
         "validated on every real trace of this run: notes.delivery_reports_checked)",
     ]
@@ -404,6 +535,10 @@ def main(tier):
     cases, impl_outs = [], []
     zero_rtt(ctx, r, 25 if not thorough else 400, cases, impl_outs)
     fc.diff_cases(ctx, "flow-zero-rtt", cases, impl_outs)
+    # 5. 0-RTT answered with SMALLER transport parameters (the case `TP.monotone` excludes): what the code does
+    cases, impl_outs = [], []
+    lowered_params_exhibit(ctx, r, 8 if not thorough else 120, cases, impl_outs)
+    fc.diff_cases(ctx, "flow-zero-rtt-lowered", cases, impl_outs)
     ctx.cov["rule"] = (
         "real QuicConnection after a real handshake; (1) every sequence of 3 actions from {write on 4 stream kinds, reset, "
         "transmit, ack all, lose, MAX_DATA+2, MAX_STREAM_DATA+1, MAX_STREAMS+1} for peer limits (max_data, max_stream_data, "
@@ -431,6 +566,9 @@ def replay(path):
         probs = [] if res is None else [w for w, _ in res[0]]
     elif rp.get("zero_rtt"):
         res = exec_zero_rtt(rp)
+        probs = [] if res is None else [w for w, _ in res[0]]
+    elif rp.get("lowered"):
+        res = exec_lowered(rp)
         probs = [] if res is None else [w for w, _ in res[0]]
     else:
         script = [tuple(a) for a in rp["script"]]
